@@ -52,8 +52,8 @@ def _xt(fa: FA, e, at=None) -> str:
 
 
 def _field_calls(fa: FA, field: str, method: str):
-    """Calls self.<field>.<method>(...)"""
-    return [c for c in fa.calls(method) if A.dotted(A.call_recv(c)) == "self." + field]
+    """Calls self.<field>.<method>(...), the field named directly or through a local alias"""
+    return [c for c in fa.calls(method) if A.dotted(A.call_recv(c)) == "self." + field or _xt(fa, A.call_recv(c), c) == "self." + field]
 
 
 def _binder_iter(fa: FA, name_node):
@@ -227,9 +227,10 @@ def check_metadata_single_form(ck, R):
     dels = [c for c in fa.calls("delete_all_versions") + fa.calls("delete_nonversioned_key")]
     ok = False
     for c in dels:
-        if not c.args:
+        key_ = A.arg_or_kw(c, 0, "key")
+        if key_ is None:
             continue
-        e = safe_expand(fa, c.args[0], c)
+        e = safe_expand(fa, key_, c)
         inner = [x for x in ast.walk(e) if isinstance(x, ast.Call) and A.call_attr(x) == "_get_metadata_key"]
         mkf = ck.repo.try_func(MDS + "._get_metadata_key")
         mkp = mkf.params if mkf is not None else ["fn_with_arg_hash", "key", "stored_with_data"]
@@ -322,7 +323,8 @@ def check_forget_scope(ck, cm: CacheModel):
     f1 = FA(ck, MDS + ".forget_function")
     dels = f1.some(f1.calls("delete_all_versions"), "delete_all_versions call")
     for c in dels:
-        deps = f1.deps(c.args[0]) if c.args else set()
+        key_ = A.arg_or_kw(c, 0, "key")
+        deps = f1.deps(key_) if key_ is not None else set()
         rec_ = A.arg_or_kw(c, 1, "recursive")
         ok = "call:_get_function_path" in deps and "param:fn_reference" in deps and rec_ is not None and _xt(f1, rec_, c) == "True"
         ck.ob(R, f1.key(c), ok, "deletes exactly the function's directory, recursively" if ok else
@@ -376,8 +378,8 @@ def check_forget_scope(ck, cm: CacheModel):
               "forget_call does not delete exactly the selected keys (non-recursively)", f2.where(c))
     f3 = FA(ck, MDS + ".forget_everything")
     de = f3.some(f3.calls("delete_all_versions"), "delete_all_versions call")
-    ok = any(A.arg_or_kw(c, 1, "recursive") is not None and _xt(f3, A.arg_or_kw(c, 1, "recursive"), c) == "True" and c.args
-             and A.strings_in(safe_expand(f3, c.args[0], c)) == [""] for c in de)
+    ok = any(A.arg_or_kw(c, 1, "recursive") is not None and _xt(f3, A.arg_or_kw(c, 1, "recursive"), c) == "True" and A.arg_or_kw(c, 0, "key") is not None
+             and A.strings_in(safe_expand(f3, A.arg_or_kw(c, 0, "key"), c)) == [""] for c in de)
     ck.ob(R, f3.key(None), ok, "forget_everything deletes the root recursively" if ok else
           "forget_everything does not delete the whole metadata root", f3.where())
     # (c) backend base mirrors into cache and metadata source
@@ -417,7 +419,10 @@ def check_forget_scope(ck, cm: CacheModel):
     ck.ob(R, fc.key(None, "tables"), found == set(tables), "forget_call removes from mementos, result and metadata" if found == set(tables) else
           "forget_call does not remove from %s" % sorted(set(tables) - found), fc.where())
     fe = FA(ck, MEMBACK + ".forget_everything")
-    cl = {A.dotted(A.call_recv(c)) for c in fe.calls("clear")}
+    cl = set()
+    for c in fe.calls("clear"):
+        # the cleared table, named directly or reached through a loop variable / alias
+        cl |= {d[5:] for d in (fe.deps(A.call_recv(c)) if fe.nodes(c) else set()) if d.startswith("attr:self.")} | {A.dotted(A.call_recv(c))}
     okE = {"self." + t for t in tables} <= cl
     ck.ob(R, fe.key(None, "tables"), okE, "forget_everything clears all tables" if okE else
           "forget_everything does not clear all of %s" % (tables,), fe.where())
@@ -433,8 +438,10 @@ def check_forget_scope(ck, cm: CacheModel):
         # prefix tests on keys that come out of self.<tb> (the tested variable is bound by a comprehension or a loop over it)
         sel = [c for c in fF.calls("startswith") if _binder_iter(fF, A.call_recv(c)) is not None and fF.nodes(c)
                and "attr:self." + tb in fF.deps(_binder_iter(fF, A.call_recv(c)))]
-        rem = [n for n in A.walk_body(fF.node) if (isinstance(n, ast.Delete) and any(isinstance(t, ast.Subscript) and A.norm(t.value) == "self." + tb for t in n.targets))
-               or (isinstance(n, ast.Call) and A.call_attr(n) == "pop" and A.norm(A.call_recv(n)) == "self." + tb)]
+        def _is_tb(e, at, tb=tb):
+            return A.norm(e) == "self." + tb or (bool(fF.nodes(at)) and "attr:self." + tb in fF.deps(e))
+        rem = [n for n in A.walk_body(fF.node) if (isinstance(n, ast.Delete) and any(isinstance(t, ast.Subscript) and _is_tb(t.value, n) for t in n.targets))
+               or (isinstance(n, ast.Call) and A.call_attr(n) == "pop" and _is_tb(A.call_recv(n), n))]
         term = bool(sel) and all(c.args and ("const:'/'" in fF.deps(c.args[0])) and "qualified_name" in {d.split(".")[-1] for d in fF.deps(c.args[0]) if d.startswith("attr:")} for c in sel)
         okT = bool(sel) and bool(rem) and term
         if tb == "result" and not sel:
